@@ -235,7 +235,11 @@ func solveOne(i int, o *Obligation, cfg solveCfg) {
 		all = append(all, a1...)
 	}
 	if r.answer != "sat" && r.answer != "unsat" && !(o.ExpectSat && cfg.tier != "thorough") {
-		r2, a2 := race(file, portfolio(script, false), cfg.fullT)
+		ft := cfg.fullT
+		if o.ExpectSat && ft > 30 {
+			ft = 30 // vacuity guards: satisfiability is looked for briefly, then without the quantified facts
+		}
+		r2, a2 := race(file, portfolio(script, false), ft)
 		all = append(all, a2...)
 		r = r2
 	}
@@ -257,7 +261,9 @@ func solveOne(i int, o *Obligation, cfg solveCfg) {
 				if sp.name == r.solver || strings.HasPrefix(sp.name, "z3-new") && strings.HasPrefix(r.solver, "z3-new") || strings.HasPrefix(sp.name, "cvc5") && strings.HasPrefix(r.solver, "cvc5") {
 					continue // same binary
 				}
-				r2 := runSolver(context.Background(), sp, file, cfg.fullT)
+				// (a second opinion is sought for at most 20 CPU-seconds per solver: the
+				// obligation is already discharged; agreement is recorded when found)
+				r2 := runSolver(context.Background(), sp, file, 20)
 				o.Queries = append(o.Queries, fmt.Sprintf("%s:%s:%.2fs", r2.solver, r2.answer, r2.secs))
 				if r2.answer == want {
 					o.Solver = r.solver + "+" + r2.solver
